@@ -1915,7 +1915,6 @@ fn allow_section_offset(name: constants::DwAt, version: u16) -> bool {
         | constants::DW_AT_stmt_list
         | constants::DW_AT_string_length
         | constants::DW_AT_return_addr
-        | constants::DW_AT_start_scope
         | constants::DW_AT_frame_base
         | constants::DW_AT_macro_info
         | constants::DW_AT_macros
@@ -1924,7 +1923,11 @@ fn allow_section_offset(name: constants::DwAt, version: u16) -> bool {
         | constants::DW_AT_use_location
         | constants::DW_AT_vtable_elem_location
         | constants::DW_AT_ranges => true,
-        constants::DW_AT_data_member_location => version == 2 || version == 3,
+        // These also allow class constant, and in DWARF version >= 4 `DW_FORM_data4/8`
+        // are always constants.
+        constants::DW_AT_data_member_location | constants::DW_AT_start_scope => {
+            version == 2 || version == 3
+        }
         _ => false,
     }
 }
@@ -2788,7 +2791,8 @@ impl<'abbrev, R: Reader> EntriesCursor<'abbrev, R> {
             }
 
             if !self.next_entry()? {
-                // End of input.
+                // End of input. The depth is never changed when returning `Ok`.
+                self.cached_current.depth = current_depth;
                 return Ok(None);
             }
 
